@@ -40,7 +40,7 @@ KILLABLE = ("Source", "PSwitch", "LinReg", "Converter")
 
 @st.composite
 def mux_systems(draw, avoid=()):
-    g = G._Gen(draw, G.Opts(f_max=0.06, tables=False, avoid=avoid,
+    g = G._Gen(draw, G.Opts(f_max=0.06, tables=True, avoid=avoid,
                          similar_sources=draw(st.integers(0, 3)) > 0))
     k = draw(st.integers(1, 4))
     entangled = draw(st.integers(0, 3)) == 0
@@ -154,9 +154,45 @@ def mux_systems(draw, avoid=()):
     return spec
 
 
-def body(spec, stats):
+def body_renamed(case, stats):
+    """The priority order of the inputs survives renaming an input / changing its rail
+    through change_comp (same parameters)."""
+    spec, picks = S.clone(case["spec"]), case["picks"]
     sys = B.build(spec)
-    df = solve_or_skip(sys, stats)
+    mux = [n for n in spec["nodes"] if n["kind"] == "PMux"][0]
+    nm = S.node_map(spec)
+    import warnings
+    for j, (which, rename, newrail) in enumerate(picks):
+        old = mux["parents"][which % len(mux["parents"])]
+        node = nm[old]
+        new = dict(node)
+        if rename:
+            new["name"] = "{} r{}".format(old, j)
+        # (a renamed component cannot keep its own rail name: change_comp treats it as taken)
+        newrail = newrail or (rename and bool(node["rail"]))
+        new["rail"] = "rail_new{}".format(j) if newrail else node["rail"]
+        with warnings.catch_warnings():
+            warnings.simplefilter("ignore")
+            sys.change_comp(old, comp=B.make_comp(new), group=node["group"], rail=new["rail"])
+            if node.get("pconf") is not None:
+                sys.set_comp_phases(new["name"], node["pconf"])
+        node["name"], node["rail"] = new["name"], new["rail"]
+        for n in spec["nodes"]:
+            n["parents"] = [new["name"] if p == old else p for p in n["parents"]]
+        nm = S.node_map(spec)
+        stats.cls("renamed_input" if rename else "rail_changed_input")
+    body(spec, stats, sys=sys)
+
+
+def body(spec, stats, sys=None):
+    sys = sys or B.build(spec)
+    try:
+        df = solve_or_skip(sys, stats)
+    except Exception as e:
+        if type(e).__name__ in ("Skip",):
+            raise
+        raise Fail("solve.exception." + type(e).__name__, "solve() raised {}: {}".format(
+            type(e).__name__, e))
     tab = Table(df)
     nm = S.node_map(spec)
     ch = S.children_map(spec)
@@ -235,5 +271,11 @@ def body(spec, stats):
 
 
 def streams(tier, avoid):
+    ren = st.fixed_dictionaries({
+        "spec": mux_systems(avoid),
+        "picks": st.lists(st.tuples(st.integers(0, 3), st.booleans(), st.booleans()).map(list),
+                          min_size=1, max_size=3)})
     return [Stream("mux", body, strategy=mux_systems(avoid),
-                   n={"quick": 350, "thorough": 2500}, reduce=S.reductions)]
+                   n={"quick": 350, "thorough": 2500}, reduce=S.reductions),
+            Stream("renamed_inputs", body_renamed, strategy=ren,
+                   n={"quick": 120, "thorough": 1000})]
